@@ -93,7 +93,7 @@ func zzDispatch(name string, args []string) {
 		zzC16MaxWord(args[0])
 	case "zzC16Emitted":
 		a := func(i int) int { v, _ := strconv.Atoi(args[i]); return v }
-		zzC16Emitted(a(0), a(1), a(2), a(3), a(4), a(5), a(6), args[7], args[8])
+		zzC16Emitted(a(0), a(1), a(2), a(3), a(4), a(5), a(6), args[7], args[8], a(9), args[10])
 	}
 }
 
@@ -101,7 +101,7 @@ func zzDispatch(name string, args []string) {
 // and ANY register/input/flag state never indexes outside the ROM, the register
 // file, the ports or the opcode list, and never leaves pc beyond the end of the
 // ROM. The machine description comes from the real front-end (run natively).
-func zzC16Emitted(rsize, r, n, mm, l, o, wordsize int, ops string, rom string) {
+func zzC16Emitted(rsize, r, n, mm, l, o, wordsize int, ops string, rom string, ndata int, mode string) {
 	m := zzMachine(rsize, r, n, mm, l, o, ops)
 	m.WordSize = uint8(wordsize)
 	// the front-end's opcode order must be the sorted, duplicate-free one the simulator and the HDL assume
@@ -118,11 +118,16 @@ func zzC16Emitted(rsize, r, n, mm, l, o, wordsize int, ops string, rom string) {
 	zzAssert("opcode-list-sorted-and-duplicate-free", sortedOK)
 	m.Program.Slocs = strings.Split(rom, ",")
 	W := m.Max_word()
-	zzAssert("rom-fits-address-space", len(m.Program.Slocs) <= 1<<uint(o))
+	zzAssert("rom-fits-address-space", len(m.Program.Slocs)+ndata <= 1<<uint(o)) // code followed by the data words
 	for _, w := range m.Program.Slocs {
 		zzAssert("rom-word-has-architecture-width", len(w) == W)
 		id, _ := m.Conproc.Decode_opcode(w)
 		zzAssert("rom-word-decodes-to-an-opcode-of-the-processor", id < len(m.Op))
+	}
+	if mode != "ha" || ndata > 0 {
+		// von Neumann / hybrid fetch and ROM data operands are not stepped: structural facts only
+		zzReach("end")
+		return
 	}
 	vm := new(VM)
 	vm.Mach = m
